@@ -512,6 +512,9 @@ func runRandomHist(prop string, seed int64, idx, steps int) core.Result {
 		}
 	}
 	res.Sample(map[string]interface{}{"kind": "random history", "connections": nconn, "steps": h.Steps, "config": fmt.Sprintf("%+v", cfg), "tail": h.tail()})
+	if prop == "C04" && idx%2 == 0 {
+		h.HoldInflight(3) // disconnect while requests naming valid fids are still executing
+	}
 	h.Finish()
 	return res
 }
